@@ -13,7 +13,22 @@ Inductive run_obs :=
 | Survived (p : list phase_obs).
 
 Record run_case := { r_phases : list (list op); r_obs : run_obs }.
-Record case := { c_runs : list run_case }.
+
+(* A concurrent "storm" on ONE registry: s_pipes pipes are created and closed at
+   once (their grace periods expire together) while s_workers goroutines keep
+   running  Create n; Get n; Dump; Delete n  (every fifth round  Create n;
+   Get n; Close n  on a fresh name) on names of their own, across the expiry;
+   then everything is waited out and Dump() is recorded. It checks the
+   atomicity assumption of the LTS: that API steps and Fire steps really
+   exclude each other in the code. *)
+Inductive storm_obs :=
+| StormDied                                    (* the process died (Go runtime fatal error, panic) or hung *)
+| StormSurvived (unexpected : bool)            (* some call returned what a sequential run could not *)
+                (final : list (N * N)).        (* Dump() after everything has been waited out *)
+
+Record storm_case := { s_pipes : N; s_workers : N; s_obs : storm_obs }.
+
+Record case := { c_runs : list run_case; c_storms : list storm_case }.
 
 (* ---------- equality ---------- *)
 Definition pair_eqb (a b : N * N) : bool := N.eqb (fst a) (fst b) && N.eqb (snd a) (snd b).
@@ -41,7 +56,16 @@ Definition run_agree (r : run_case) : bool :=
   | Survived p => leqb phase_eqb (run_phases st0 (r_phases r)) p
   end.
 
-Definition agree (c : case) : bool := forallb run_agree (c_runs c).
+(* every interleaving of the storm's steps leaves only the null pipe: each name
+   is created and then deleted, or closed and fired (Proof: storm_round_restores) *)
+Definition storm_agree (s : storm_case) : bool :=
+  match s_obs s with
+  | StormDied => false
+  | StormSurvived unexpected d => negb unexpected && leqb pair_eqb (reg st0) d
+  end.
+
+Definition agree (c : case) : bool :=
+  forallb run_agree (c_runs c) && forallb storm_agree (c_storms c).
 
 (* ---------- the property, on the observations ---------- *)
 (* Bookkeeping from the history alone: L = names of live pipes, C = names closed
@@ -105,7 +129,16 @@ Definition run_ok (r : run_case) : bool :=
   | Survived obs => phases_ok [0%N] (r_phases r) obs
   end.
 
-Definition spec_ok (c : case) : bool := forallb run_ok (c_runs c).
+(* never crashes the shell, whatever the schedule; operations on live / missing
+   pipes answer as they must; afterwards exactly the null pipe is left *)
+Definition storm_ok (s : storm_case) : bool :=
+  match s_obs s with
+  | StormDied => false
+  | StormSurvived unexpected d => negb unexpected && names_match [0%N] d
+  end.
+
+Definition spec_ok (c : case) : bool :=
+  forallb run_ok (c_runs c) && forallb storm_ok (c_storms c).
 
 (* no known finding for C26 (F26 is fixed) *)
 Definition classify (c : case) : N := 0%N.
